@@ -29,6 +29,12 @@ GOLDEN_ALIASES = {
     "thomson_cross_section": "σ_T", "sigma_thomson": "σ_T", "mass_mercury": "mercury_mass",
     "mass_venus": "venus_mass", "mass_mars": "mars_mass", "mass_saturn": "saturn_mass",
     "mass_uranus": "uranus_mass", "mass_neptune": "neptune_mass",
+    # the rest of the documented inventory (docs/usage.rst "Physical constants" + the historical 'thompson' misspellings kept for
+    # backwards compatibility): with these the list is complete, so a name that moves to another row is judged by value
+    "sigma_thompson": "σ_T", "thompson_cross_section": "σ_T", "cross_section_thompson": "σ_T", "cross_section_thomson": "σ_T",
+    "charge_proton": "qp", "charge_electron": "qe", "msun": "Msun", "m_sun": "Msun", "m_Sun": "Msun", "M_sun": "Msun",
+    "M_Sun": "Msun", "mjup": "Mjup", "mass_jupiter": "Mjup", "mearth": "Mearth", "mass_earth": "Mearth", "μ_0": "mu_0",
+    "ε_0": "eps_0", "R_∞": "R_inf",
 }
 CLASS_OVERRIDE = {"mh": "G"}  # standard atomic weight of H is an interval, ~1e-4
 
@@ -171,6 +177,25 @@ def run(ctx):
         ctx.ev()
         if cn not in pct or al not in pct[cn][2]:
             ctx.violation(f"C15:golden-alias-missing:{al}", {"alias": al, "constant": cn})
+    # ... and by value, whatever row the library files the name under: each documented alias (plain, _mks, same-dimension _cgs)
+    # is the quantity its documented constant is
+    for al, cn in GOLDEN_ALIASES.items():
+        if cn not in default_si:
+            continue
+        for suffix in ("", "_mks", "_cgs"):
+            for where, q in (("physical_constants", getattr(pc, al + suffix, None)), ("unyt", getattr(unyt, al + suffix, None))):
+                if q is None or not isinstance(q, unyt_quantity):
+                    continue
+                ctx.ev()
+                ctx.nt(("golden-alias-value", where, al + suffix))
+                mg, dm = si(q)
+                if dm == default_si[cn][1] and relerr(mg, default_si[cn][0]) > TOL_SAME:
+                    ctx.violation(f"C15:documented-alias-differs-from-its-constant:{cn}", {"alias": al + suffix, "where": where, "got": mg, "constant": default_si[cn][0], "rel": relerr(mg, default_si[cn][0])})
+    # inventory the other way round: an alias the documentation does not know cannot be judged
+    for cn in canon_names:
+        for al in pct[cn][2]:
+            if al not in GOLDEN_ALIASES:
+                ctx.violation(f"C15:oracle-missing-alias:{al}", {"alias": al, "row": cn})
 
     # per-unit-system registries
     for sname in SYSTEMS:
